@@ -1,5 +1,6 @@
 import ErgoVerif.Lemmas.EdfTop
 import ErgoVerif.Lemmas.HsCache
+import ErgoVerif.Lemmas.EdfRep
 /-!
 # C11 — EDF round trip
 
@@ -129,6 +130,28 @@ theorem C11_counterexample_map_array_key : ¬ C11_full := by
 -- ------------------------------------------------------------------------------------------------
 -- rejection: the encoder returns an error exactly on the listed over-long cases
 -- ------------------------------------------------------------------------------------------------
+
+/-- The encoder returns an error exactly on the unrepresentable values: `Rep` (Lemmas/EdfRep.lean) says the value
+    has the shape of its type — recursively through slices, arrays (length = the type's length), maps, struct
+    fields, interface values (dynamic type encodable, i.e. no array type longer than 2^32-1) — and every leaf is
+    within its wire limit: string ≤ 65535, binary ≤ 2^32-1, atom and node/name atoms of identifiers ≤ 255,
+    error text ≤ 32767 (a sentinel: in the error cache or text ≤ 32767), time = a valid MarshalBinary image,
+    marshaler payload ≤ 2^32-2.  Nothing else is rejected, and nothing unrepresentable is accepted. -/
+theorem C11_reject (o : Opts) (t : Ty) (v : Val) : encB o t v = none ↔ ¬ Rep o t v := by
+  rw [← encB_rep o v t]
+  cases encB o t v <;> simp
+
+theorem C11_reject_top (o : Opts) (t : Ty) (v : Val) :
+    encode o t v = none ↔ ¬ (t.encodable = true ∧ t ≠ .any ∧ ¬ (t = .error ∧ v = .nil) ∧ Rep o t v) := by
+  rw [← encB_rep o v t]
+  unfold encode
+  by_cases h1 : t.encodable = true <;> by_cases h2 : t = .any <;> by_cases h3 : (t = .error ∧ v = .nil)
+  all_goals (try (obtain ⟨h3a, h3b⟩ := h3))
+  all_goals (try (subst h3a; subst h3b))
+  all_goals (try (subst h2))
+  all_goals (simp_all)
+  all_goals (cases encB o t v <;> simp_all)
+  all_goals (by_cases hx : t = .error <;> simp_all)
 
 theorem C11_reject_string (o : Opts) (s : Bytes) : encB o .str (.str s) = none ↔ s.length > 65535 := by
   simp [encB, encLeaf, limStringEnc]
